@@ -177,7 +177,10 @@ def shapes_of_item(op, av, names):
         direction, sub = av
         if direction != -1:
             raise UnsupportedRegex("look-ahead")
-        return [Shape([("lb", plain_language(sub))])]
+        r = plain_language(sub)
+        lookbehind_of[id(r)] = lookbehind_chars(sub)
+        _keep.append(r)
+        return [Shape([("lb", r)])]
     if op == C.MAX_REPEAT:
         lo, hi, sub = av
         if len(sub) == 1 and one_char(*sub[0]) is not None:
@@ -193,109 +196,195 @@ def shapes_of_item(op, av, names):
     raise UnsupportedRegex(f"regex construct {op}")
 
 
+_keep = []      # keeps look-behind regex objects alive (their id() is a key)
+
+
 def shapes(pattern, flags=0):
     tree = sre_parse.parse(pattern, flags)
     names = {v: k for k, v in tree.state.groupdict.items()}
     return shapes_of_seq(tree, names)
 
 
-def piece_constraint(p, x):
-    if p.kind == "char":
-        return [z3.InRe(x, p.lang)]
+# ------------------------------------------------------------------------------ queries
+# Everything is phrased as emptiness of an intersection of regular languages over the input
+# alphabet plus two marker characters that pin positions of the two decompositions (the
+# family's and the candidate instance's) to each other.  No word equations.
+M1, M2 = "\x01", "\x02"
+MARK = z3.Union(z3.Re(M1), z3.Re(M2))
+SIGMA = z3.Full(RS)
+
+
+def cat(rs):
+    rs = list(rs)
+    if not rs:
+        return z3.Re("")
+    return rs[0] if len(rs) == 1 else z3.Concat(*rs)
+
+
+def piece_lang(p):
     if p.kind == "run":
-        return [z3.InRe(x, loop(p.lang, p.lo, p.hi))]
-    return [z3.InRe(x, p.lang)]
+        return loop(p.lang, p.lo, p.hi)
+    return p.lang
 
 
-def instance(shape, xs):
-    """constraints saying that the strings xs are an instance of the shape; -> (constraints,
-    groups: name -> term, consumed: term)"""
-    cons, groups, open_, k = [], {}, {}, 0
-    sofar = []
-
-    def cat(ts):
-        if not ts:
-            return z3.StringVal("")
-        return ts[0] if len(ts) == 1 else z3.Concat(*ts)
-    for kind, v in shape.items:
-        if kind == "piece":
-            cons += piece_constraint(v, xs[k])
-            sofar.append(xs[k])
-            for n in open_:
-                open_[n].append(xs[k])
-            k += 1
-        elif kind == "lb":
-            cons.append(z3.InRe(cat(sofar), z3.Concat(z3.Full(RS), v)))
-        elif kind == "gs":
-            open_[v] = []
-        elif kind == "ge":
-            groups[v] = cat(open_.pop(v))
-    return cons, groups, cat(sofar)
-
-
-def fresh(prefix, n):
-    fresh.counter += 1
-    return [z3.String(f"{prefix}{fresh.counter}_{i}") for i in range(n)]
-
-
-fresh.counter = 0
-
-
-def matches_prefix(shape, w, tag="y"):
-    """some instance of the shape matches a prefix of w -> (constraints, piece vars)"""
-    xs = fresh(tag, len(shape.pieces))
-    cons, groups, consumed = instance(shape, xs)
-    rest = z3.String(f"{tag}rest{fresh.counter}")
-    cons.append(w == z3.Concat(consumed, rest))
-    return cons, xs
-
-
-def lemma_queries(pattern, flags, w, family, intended_pieces, intended_groups, name):
-    """-> list of (obligation name, list of z3 constraints that must be UNSAT, meta).
-    intended_pieces None: the pattern must not match any prefix of w."""
-    sh = shapes(pattern, flags)
+def with_optional_marks(lb_items):
+    """a look-behind of single-character items, tolerant of markers between / after them"""
     out = []
-    if intended_pieces is None:
-        for k, s in enumerate(sh):
-            cons, _ = matches_prefix(s, w)
-            out.append((f"{name}.no_match.shape{k}", list(family) + cons, {"shape": s.describe(), "choices": list(s.key)}))
-        return out, None
-    cands = [k for k, s in enumerate(sh) if len(s.pieces) == len(intended_pieces)]
-    return out, (sh, cands)
+    for r in lb_items:
+        out.append(r)
+        out.append(z3.Star(MARK))
+    return cat(out)
 
 
-def intended_queries(sh, k0, w, family, pieces, groups, name):
-    """queries for 'the engine returns the instance `pieces` of shape k0' (E, P1, P2)"""
+def lookbehind_chars(sub):
+    out = []
+    for op, av in sub:
+        r = one_char(op, av)
+        if r is None:
+            raise UnsupportedRegex("look-behind of variable width")
+        out.append(r)
+    return out
+
+
+class Segment:
+    """part of the family's grammar: its text lies in `lang` and fills `npieces` consecutive
+    pieces of the intended shape"""
+
+    def __init__(self, lang, npieces=1, name=""):
+        self.lang, self.npieces, self.name = lang, npieces, name
+
+
+def fold_items(left, items):
+    """language of `left` followed by the items (pieces, look-behinds) of a shape"""
+    cur = left
+    for kind, v in items:
+        if kind == "piece":
+            cur = z3.Concat(cur, piece_lang(v))
+        elif kind == "lb":
+            cur = z3.Intersect(cur, z3.Concat(SIGMA, v))
+    return cur
+
+
+def seg_of_piece(segments):
+    out = []
+    for g, sg in enumerate(segments):
+        out += [g] * sg.npieces
+    return out
+
+
+def queries_for_family(sh, k0, segments, rest_lang, groups, name):
+    """-> list of (name, regex whose language must be EMPTY, meta), or raises UnsupportedRegex.
+    groups: name -> (first segment, one past the last segment) of the expected group text."""
     out = []
     s0 = sh[k0]
-    cons0, g0, consumed0 = instance(s0, pieces)
-    for i, c in enumerate(cons0):
-        out.append((f"{name}.E.is_a_match.{i}", list(family) + [z3.Not(c)], {"shape": s0.describe()}))
-    out.append((f"{name}.E.prefix_of_input", list(family) + [z3.Not(z3.PrefixOf(consumed0, w))], {}))
-    for gname, term in groups.items():
-        if gname not in g0:
-            out.append((f"{name}.E.group.{gname}", list(family), {"missing-group": gname}))
-        else:
-            out.append((f"{name}.E.group.{gname}", list(family) + [g0[gname] != term], {}))
-    for k in range(k0):
-        cons, _ = matches_prefix(sh[k], w)
-        out.append((f"{name}.P1.no_earlier_shape.{k}", list(family) + cons,
-                    {"shape": sh[k].describe(), "choices": list(sh[k].key)}))
     ps = s0.pieces
-    # position of every piece in the item list (to compare decision prefixes by identity:
-    # shapes of one enumeration share the item objects of their common prefix)
+    if sum(sg.npieces for sg in segments) != len(ps):
+        raise UnsupportedRegex("segments do not cover the pieces of the shape")
+    seg_idx = seg_of_piece(segments)
+    # item positions of the pieces, and the piece range of every segment
     pos = [i for i, it in enumerate(s0.items) if it[0] == "piece"]
-    for j, p in enumerate(ps):
-        if not p.greedy:
-            continue
-        upto = pos[j] + 1
-        for k2, s2 in enumerate(sh):
-            if len(s2.items) < upto or any(a is not b and a[1] is not b[1] for a, b in zip(s2.items[:upto], s0.items[:upto])):
+    first_piece = []
+    k = 0
+    for sg in segments:
+        first_piece.append(k)
+        k += sg.npieces
+    first_piece.append(k)
+
+    def seg_with_pieces(g):
+        """text of segment g as the family and the shape's pieces both allow it"""
+        a, b = first_piece[g], first_piece[g + 1]
+        return z3.Intersect(segments[g].lang, cat(piece_lang(ps[i]) for i in range(a, b)))
+    # (E) the intended instance is a match: every segment's language is inside the language of
+    # its pieces, and every look-behind holds for every member
+    for g, sg in enumerate(segments):
+        a, b = first_piece[g], first_piece[g + 1]
+        out.append((f"{name}.E.segment{g}_fits_its_pieces",
+                    z3.Intersect(sg.lang, z3.Complement(cat(piece_lang(ps[i]) for i in range(a, b)))),
+                    {"segment": sg.name}))
+    npieces_before = 0
+    for i, (kind, v) in enumerate(s0.items):
+        if kind == "piece":
+            npieces_before += 1
+        elif kind == "lb":
+            if npieces_before not in first_piece:
+                raise UnsupportedRegex("look-behind inside a segment")
+            g = first_piece.index(npieces_before)
+            before = cat(segments[x].lang for x in range(g))
+            out.append((f"{name}.E.lookbehind_at_segment{g}", z3.Intersect(before, z3.Complement(z3.Concat(SIGMA, v))), {}))
+    # groups: the group boundaries of the shape are the expected segment boundaries
+    gspan, open_, np_ = {}, {}, 0
+    for kind, v in s0.items:
+        if kind == "piece":
+            np_ += 1
+        elif kind == "gs":
+            open_[v] = np_
+        elif kind == "ge":
+            gspan[v] = (open_.pop(v), np_)
+    for gname, (ga, gb) in groups.items():
+        want = (first_piece[ga], first_piece[gb])
+        ok = gspan.get(gname) == want
+        out.append((f"{name}.E.group_{gname}_is_the_expected_text", z3.Re("") if not ok else z3.Intersect(z3.Re("a"), z3.Re("b")),
+                    {"group": gname, "pieces_of_group": gspan.get(gname), "expected_pieces": want}))
+    whole_f = cat([sg.lang for sg in segments] + [rest_lang])
+
+    def common_prefix(s2):
+        c = 0
+        for a, b in zip(s2.items, s0.items):
+            if a is b or (a[0] == b[0] and a[1] is b[1]):
+                c += 1
+            else:
+                break
+        return c
+    for k2, s2 in enumerate(sh):
+        c = common_prefix(s2)
+        npc = sum(1 for it in s0.items[:c] if it[0] == "piece")      # pieces in the common prefix
+        # (b) an earlier shape that agrees with the intended instance on the common pieces
+        if k2 < k0:
+            # align at the last segment boundary inside the common prefix
+            g = max(x for x in range(len(first_piece)) if first_piece[x] <= npc)
+            a_items = [it for it in s0.items[:c]]
+            # items of the common prefix beyond the aligned boundary stay on the candidate's side
+            cut = pos[first_piece[g]] if first_piece[g] < len(pos) else len(s0.items)
+            cut = min(cut, c)
+            A = cat(seg_with_pieces(x) for x in range(g))
+            f_side = z3.Concat(A, z3.Re(M1), cat([segments[x].lang for x in range(g, len(segments))] + [rest_lang]))
+            tail = [(kk, (with_optional_marks(lookbehind_of[id(vv)]) if kk == "lb" else vv)) for kk, vv in s2.items[cut:]]
+            c_side = z3.Concat(fold_items(z3.Concat(A, z3.Re(M1)), tail), SIGMA)
+            out.append((f"{name}.P1.no_earlier_alternative.shape{k2}", z3.Intersect(f_side, c_side),
+                        {"shape": s2.describe(), "choices": list(s2.key), "aligned_after_segment": g}))
+        # (a) a longer greedy run at a piece of the common prefix
+        for j in range(npc):
+            p = ps[j]
+            if not p.greedy:
                 continue
-            cons, xs = matches_prefix(s2, w)
-            cons += [xs[i] == pieces[i] for i in range(j)]
-            cons.append(z3.Length(xs[j]) > z3.Length(pieces[j]))
-            out.append((f"{name}.P2.no_longer_run.piece{j}.shape{k2}", list(family) + cons,
+            if pos[j] >= c:
+                continue
+            g = seg_idx[j]
+            if j != first_piece[g + 1] - 1:
+                raise UnsupportedRegex("a greedy piece that is not the last piece of its segment")
+            if any(ps[i].greedy for i in range(first_piece[g], j)):
+                raise UnsupportedRegex("two greedy pieces in one segment")
+            A = cat(seg_with_pieces(x) for x in range(g))
+            f_side = z3.Concat(A, z3.Re(M1), segments[g].lang, z3.Re(M2),
+                               cat([segments[x].lang for x in range(g + 1, len(segments))] + [rest_lang]))
+            inside = cat([piece_lang(ps[i]) for i in range(first_piece[g], j)] +
+                         [z3.Star(p.lang), z3.Re(M2), z3.Plus(p.lang)])
+            tail = [(kk, (with_optional_marks(lookbehind_of[id(vv)]) if kk == "lb" else vv)) for kk, vv in s2.items[pos[j] + 1:]]
+            c_side = z3.Concat(fold_items(z3.Concat(A, z3.Re(M1), inside), tail), SIGMA)
+            out.append((f"{name}.P2.no_longer_run.piece{j}.shape{k2}", z3.Intersect(f_side, c_side),
                         {"piece": p.desc, "shape": s2.describe()}))
     opaque = [p.desc for p in ps if p.kind == "opaque"]
-    return out, opaque
+    return out, opaque, whole_f
+
+
+def no_match_queries(sh, whole_f, name):
+    out = []
+    for k, s in enumerate(sh):
+        tail = [(kk, (z3.Concat(*lookbehind_of[id(vv)]) if len(lookbehind_of[id(vv)]) > 1 else lookbehind_of[id(vv)][0])
+                 if kk == "lb" else vv) for kk, vv in s.items]
+        c_side = z3.Concat(fold_items(z3.Re(""), tail), SIGMA)
+        out.append((f"{name}.no_match.shape{k}", z3.Intersect(whole_f, c_side), {"shape": s.describe()}))
+    return out
+
+
+lookbehind_of = {}      # id(regex of a look-behind item) -> list of its single-character regexes
